@@ -106,6 +106,19 @@ CHECKS["C10"] = (
     "DESIGN.md 2/C10, 1.6",
 )
 
+CHECKS["C13"] = (
+    "bounded exhaustive exploration of documents x comment decorations x the four include_position/include_comments combinations on the real loader and printer",
+    "Every S1/S4/root-list document - plain, with a # comment after every statement, with a /* */ comment in every gap, and with every single placement of four comment kinds at every gap - and every corpus file is loaded under all four flag combinations: after deleting __position__/__comments__ the dictionary must be type- and order-identical to the plain load; printing a dictionary loaded with positions must be byte-identical to printing the plain one; printing one loaded with comments must contain, apart from comments, exactly the same tokens (own lexer). loads, open and load are bound together on real files for every flag combination.",
+    "Trusted: mcf/reader.lex for separating comments from content.",
+    "DESIGN.md 2/C13",
+)
+CHECKS["C14"] = (
+    "bounded exhaustive exploration of comment placements (all singles, all pairs, thorough all triples, all-filled) with uniquely numbered comments; output read by the independent reader",
+    "On every base document (rich nested documents, containment paths, shape-covering documents; one keyword per line) a uniquely numbered comment of three kinds (#, /* */, two-line /* */) is placed at every site - documented (end of each simple keyword line, above each object/METADATA/VALIDATION/CONNECTIONOPTIONS opener) and other (after END, inside values, on PROCESSING/CONFIG/pair lines, above VALUES/PROJECTION/POINTS/PATTERN) - exhaustively for 1 and 2 (thorough 3) simultaneous placements plus the all-sites-filled variants. After loads(include_comments=True) -> dumps every output comment must be a space-joined sequence of verbatim source comments, none written more often than in the source, the output must load to the same content as the comment-free output, trailing # comments must sit on their keyword's line and above-opener comments directly above that opener. All corpus files with their own comments get the first three clauses.",
+    "Trusted: mcf/reader.py. A statement spread over lines by a comment inside its values no longer has a documented trailing site.",
+    "DESIGN.md 2/C14",
+)
+
 NOT_YET = {}
 
 
